@@ -92,7 +92,9 @@ type FuncSpec struct {
 	HasAssigns bool
 	Invariants []*SpecClause
 	Decreases  []*SpecClause
+	Auto       bool // created by package-props (no written contract)
 	Owns       bool
+	CrashAtomic bool
 	Trusted    bool
 	Inline     bool
 	Pure       bool
@@ -135,6 +137,7 @@ type TypeInv struct {
 type SpecDB struct {
 	fieldsets map[string][]string // struct type key -> fields with a set view
 	imagesets map[string][]string // struct type key -> pure methods with a set view
+	pkgProps  map[string][]string // package -> properties every function of the package belongs to
 	typeinvs []*TypeInv
 	funcs    map[string]*FuncSpec
 	preds    map[string]*PredSpec
@@ -148,7 +151,7 @@ type SpecDB struct {
 }
 
 func newSpecDB() *SpecDB {
-	return &SpecDB{imagesets: map[string][]string{}, fieldsets: map[string][]string{}, funcs: map[string]*FuncSpec{}, preds: map[string]*PredSpec{}, globals: map[string]*GlobalDecl{},
+	return &SpecDB{pkgProps: map[string][]string{}, imagesets: map[string][]string{}, fieldsets: map[string][]string{}, funcs: map[string]*FuncSpec{}, preds: map[string]*PredSpec{}, globals: map[string]*GlobalDecl{},
 		ifaces: map[string]*FuncSpec{}, ftypes: map[string]*FuncSpec{}, expect: map[string]int{}, source: map[string]string{}}
 }
 
@@ -206,9 +209,9 @@ func (db *SpecDB) funcTypeSpec(t types.Type) *FuncSpec {
 
 // ---- file parsing ----
 
-var clauseKw = map[string]bool{"ensures-agg": true, "ensures-each": true, "requires": true, "ensures": true, "assigns": true, "invariant": true, "decreases": true,
+var clauseKw = map[string]bool{"crash-atomic": true, "ensures-agg": true, "ensures-each": true, "requires": true, "ensures": true, "assigns": true, "invariant": true, "decreases": true,
 	"owns": true, "trusted": true, "inline": true, "pure": true, "holds": true, "props": true, "params": true}
-var declKw = map[string]bool{"imageset-of": true, "fieldset-of": true, "typeinv": true, "func": true, "pred": true, "lemma": true, "global": true, "interface": true, "type": true, "expect-obligations": true, "table": true}
+var declKw = map[string]bool{"package-props": true, "imageset-of": true, "fieldset-of": true, "typeinv": true, "func": true, "pred": true, "lemma": true, "global": true, "interface": true, "type": true, "expect-obligations": true, "table": true}
 
 type rawClause struct {
 	kw   string
@@ -394,6 +397,11 @@ func (db *SpecDB) parseFile(file, src string) error {
 				db.expect["prop:"+parts[0]] += n
 			}
 			cur = nil
+		case "package-props":
+			for _, p := range strings.Split(r.text, ",") {
+				db.pkgProps[pkg] = append(db.pkgProps[pkg], strings.TrimSpace(p))
+			}
+			cur = nil
 		case "imageset-of":
 			colon := strings.Index(r.text, ":")
 			if colon < 0 {
@@ -477,6 +485,8 @@ func (db *SpecDB) parseFile(file, src string) error {
 				}
 				et.Text = body
 				cur.Each = append(cur.Each, et)
+			case "crash-atomic":
+				cur.CrashAtomic = true
 			case "owns":
 				cur.Owns = true
 			case "trusted":
@@ -1067,6 +1077,37 @@ func fieldKind(t types.Type) string {
 // expandTemplates turns ensures-each directives into ensures clauses using the
 // struct types of the loaded program.
 func (db *SpecDB) expandTemplates(eng *Engine) error {
+	// package-props: every function of the package is verified for these
+	// properties; functions without a written contract are transparent.
+	for k, fn := range eng.funcs {
+		if fn.Pkg == nil && fn.Parent() == nil {
+			continue
+		}
+		pkg := strings.SplitN(k, ".", 2)[0]
+		props := db.pkgProps[pkg]
+		if len(props) == 0 || strings.Contains(fn.Name(), "$") {
+			continue
+		}
+		fs := db.funcs[k]
+		if fs == nil {
+			if i := strings.Index(k, "["); i >= 0 && db.funcs[k[:i]] != nil {
+				continue
+			}
+			fs = &FuncSpec{Name: k, Pkg: pkg, Inline: true, Auto: true}
+			db.funcs[k] = fs
+		}
+		for _, p := range props {
+			has := false
+			for _, q := range fs.Props {
+				if q == p {
+					has = true
+				}
+			}
+			if !has {
+				fs.Props = append(fs.Props, p)
+			}
+		}
+	}
 	for _, fs := range db.funcs {
 		for _, et := range fs.Each {
 			pkg := eng.typesPkgByName(fs.Pkg)
